@@ -83,7 +83,8 @@ struct Digit {
 
             if (!IsUnsigned<Number_T>()) {
                 if (number < 0) {
-                    qn.Integer = -qn.Integer;
+                    // Two's complement on the unsigned member: defined for the minimum value too.
+                    qn.Natural = decltype(qn.Natural)(~qn.Natural + 1U);
                     stream += DigitUtils::DigitChar::Negative;
                 }
             }
